@@ -110,7 +110,7 @@ reg("C02", "other",
 
 reg("C03", "other",
     [PN.s_panic_decode, PN.s_loop, PN.s_alloc, C.s_unsafe, C.h_utf8, PL.g_dispatch, PL.h_cap, PL.h_pending, T.t_varint_readers,
-     B.l_consume, P.l_propdec],
+     B.l_consume, P.l_propdec, PL.s_persist],
     "Site audit over the call-graph closure of all decoder entry points: every panic-capable site (arithmetic on unsigned "
     "integers, indexing incl. Index-trait calls, unwrap/expect, explicit panics) is discharged by a dominating-guard rule or a named "
     "table entry with a reason (the table entries are reviewed, not proved); every loop matches a progress pattern (counter loops are "
@@ -118,7 +118,9 @@ reg("C03", "other",
     "unsafe block is one of three audited shapes (from_utf8_unchecked after validation of the same buffer - H-utf8; set_len equal to "
     "the requested capacity - P-complete; MaybeUninit buffer assumed init only on exact fill - P-body); allocation sizes have the "
     "provenance 'widened u8/u16' or 'remaining length < 2^28, decreased only' (S-alloc); the one unreachable! is unreachable "
-    "(G-dispatch); no recursion. Not decided: stack/heap exhaustion inside std/tokio.")
+    "(G-dispatch); no recursion; the poll decoder keeps no progress or budget in locals that could make it return Pending without the "
+    "transport having registered a wake-up (S-persist, P-body: a Pending nobody wakes is non-termination). Not decided: stack/heap "
+    "exhaustion inside std/tokio.")
 
 reg("C04", "other",
     [T.t_codes, T.t_hdr, P.t_props, P.h_proplen, P.h_dup, P.h_bytevals, P.l_propdec, PL.h_exactfill, B.t_bits, B.h_checked_sub,
@@ -163,7 +165,8 @@ reg("C07", "other",
     "validation fires early on a strict prefix of a valid encoding (follows from read-before-use but is not derived).")
 
 reg("C08", "other",
-    [PL.h_total, PL.h_cap, B.l_consume, P.l_propdec, P.h_proplen, T.t_width, T.t_varint_readers, PL.s_persist, P3.h_shortform],
+    [PL.h_total, PL.h_cap, B.l_consume, P.l_propdec, P.h_proplen, T.t_width, T.t_varint_readers, PL.s_persist, P3.h_shortform,
+     C.h_utf8, IO.s_readers],
     "NOT decided: equality of a decoded sequence with a generated one over all histories. Decided: the per-packet consumption "
     "invariant from which framing follows by induction: the poll decoder reads 1 + (1 + var_idx) header bytes and exactly "
     "remaining_len body bytes and reports their sum (P-header, P-complete, P-body, S-persist); every accounting body decoder consumes "
@@ -172,7 +175,7 @@ reg("C08", "other",
     "goes on to the property block otherwise (H-shortform); total_len / header_len / remaining_len are mutually consistent (T-width).")
 
 reg("C09", "other",
-    [IO.h_async1, IO.h_asref, IO.s_writers, IO.s_pure, L.l_hdr, L.l_fixed],
+    [IO.h_async1, IO.h_asref, IO.s_writers, IO.s_pure, L.l_hdr, L.l_fixed, L.l_eq],
     "Decided for the crate's own code (tokio's write_all semantics under partial writes / Pending are trusted): encode_async is "
     "encode()? followed by exactly one write_all(data.as_ref()) on the same bytes with no branching (H-async1); VarBytes::as_ref "
     "returns the whole container for every variant (H-asref); only write_all is ever called on a sink and no buffering adapter sits "
@@ -181,7 +184,7 @@ reg("C09", "other",
     "encode closure reads no static/thread-local/interior-mutable state and calls nothing environment dependent (S-pure).")
 
 reg("C10", "other",
-    [T.t_rc, L.t_ctl, P.t_propid, B.t_bits, T.t_varint_writer, T.t_proto, L.l_hdr],
+    [T.t_rc, L.t_ctl, P.t_propid, B.t_bits, T.t_varint_writer, T.t_proto, L.l_hdr, L.l_eq, P.t_prop3],
     "Static analysis cannot run an independent decoder; decided instead: every constant the encoder puts on the wire equals the "
     "independently typed OASIS tables (spec_mqtt.py): control bytes incl. PUBLISH flag bits for all 12 flag combinations (T-ctl), all "
     "138 wire-code enum discriminants (T-rc), property ids, their wire types and the id-then-value order, length prefix = sum of "
@@ -246,7 +249,7 @@ reg("C17", "other",
     "share name.")
 
 reg("C18", "proof",
-    [T.t_tname, C.h_tn, C.h_ctor, C.h_priv],
+    [T.t_tname, C.h_tn, C.h_ctor, C.h_priv, C.h_utf8],
     "All obligations exact: TopicName::is_invalid is `byte length > 65535 || contains one of {'+','#','\\0'}` (T-tname, evaluated); "
     "try_from returns InvalidTopicName(value) iff is_invalid(value) else stores the same string (H-ctor, evaluated); it is the only "
     "construction site, fields are private (H-priv); Deref/Display return the text, is_shared/is_sys are starts_with(\"$share/\") / "
@@ -254,7 +257,7 @@ reg("C18", "proof",
 
 reg("C20", "other",
     [RA.h_raise, RA.h_order, P.t_props, P.h_proplen, P.h_dup, P.h_bytevals, D.h_dispatch3, PL.h_exactfill, D.h_block,
-     IO.h_noswallow, T.t_codes, B.h_checked_sub, B.t_bits],
+     IO.h_noswallow, T.t_codes, B.h_checked_sub, B.t_bits, C.h_utf8],
     "NOT decided: that a given byte-level malformation of a given packet reaches the site the catalogue names (path feasibility "
     "over inputs). Decided: every raise site carries the value its guard tested (H-raise payload rule), each documented variant is "
     "raised only where the catalogue places it and the mandatory sites exist (placement, floors), unknown reason bytes become "
